@@ -55,7 +55,13 @@ def main():
     checks = a.checks.split(",") if a.checks else checks_available()
     if a.twins:
         a.seeds = ",".join(sorted(f[:-5] for f in os.listdir(os.path.join(VERIF, "selftest", "twins")) if f.endswith(".diff")))
-    seeds = a.seeds.split(",") if a.seeds else ["CLEAN"] + sorted(d for d in os.listdir(os.path.join(VERIF, "seeded")) if os.path.isdir(os.path.join(VERIF, "seeded", d)))
+    def retired(d):
+        mp = os.path.join(VERIF, "seeded", d, "meta.json")
+        try:
+            return "retired" in json.load(open(mp))
+        except (OSError, ValueError):
+            return False
+    seeds = a.seeds.split(",") if a.seeds else ["CLEAN"] + sorted(d for d in os.listdir(os.path.join(VERIF, "seeded")) if os.path.isdir(os.path.join(VERIF, "seeded", d)) and not retired(d))
     out = {}
     with ThreadPoolExecutor(a.jobs) as ex:
         for seed, res, err in ex.map(lambda s: run_one(s, checks), seeds):
